@@ -8,7 +8,7 @@ CFG = {
     "C07": dict(quick=["MCShim_q07"], thorough=["MCShim_q07", "MCShim_q07b", "MCShim_t"],
                 ops=["list", "signers", "sign", "add", "addhard", "remove", "removeall", "dremove", "dadd", "dlock", "tick"], faults=[]),
     "C08": dict(quick=["MCShim_q08"], thorough=["MCShim_q08", "MCShim_t"],
-                ops=["list", "signers", "sign", "add", "addhard", "remove", "removeall", "lock", "unlock", "close", "dlock", "forward", "fstorm"], faults=["fail"]),
+                ops=["list", "signers", "sign", "add", "addhard", "remove", "removeall", "lock", "unlock", "close", "dlock", "forward", "fstorm", "lockrace", "lockrace2"], faults=["fail"]),
     "C09": dict(quick=["MCShim_q07b"], thorough=["MCShim_q07b", "MCShim_q07", "MCShim_t"],
                 ops=["list", "signers", "sign", "add", "addhard", "remove", "removeall", "dremove", "dadd", "tick"], faults=[]),
     "C10": dict(quick=["MCShim_q10"], thorough=["MCShim_q10", "MCShim_q07", "MCShim_t"],
